@@ -335,6 +335,18 @@ func (tx *tableEx) term(v ssa.Value, row *PathRow, depth int) *Term {
 				return tx.term(x.Edges[i], row, depth+1)
 			}
 		}
+		// a materialised `a && b` / `a || b` computed before the path starts
+		if ops, isOr, ok := shortCircuit(x, 0); ok {
+			op := token.LAND
+			if isOr {
+				op = token.LOR
+			}
+			t := tx.term(ops[0], row, depth+1)
+			for _, o := range ops[1:] {
+				t = &Term{Kind: "op", Op: op, Sub: []*Term{t, tx.term(o, row, depth+1)}}
+			}
+			return t
+		}
 		return &Term{Kind: "opaque", Note: "phi off path"}
 	case *ssa.Parameter:
 		if dom, kind := tx.domainOf(x); dom != nil {
